@@ -294,6 +294,20 @@ func composeDetPool(cfg *config, n int) ([]detPool, map[string]string, error) {
 	for i := 0; i < n; i++ {
 		name := fmt.Sprintf("c%02d", i+1)
 		var chosen []*detBlock
+		if i == n-1 {
+			// one big grammar made of every block: more than 64 terminals, a few hundred
+			// states — sizes at which bit sets spill into further words and table element
+			// types widen
+			chosen = append(chosen, blocks...)
+			text, desc := composeDetGrammar(name, chosen, src)
+			p := filepath.Join(dir, name+".tm")
+			if err := os.WriteFile(p, []byte(text), 0o644); err != nil {
+				return nil, nil, err
+			}
+			pool = append(pool, detPool{ID: "composed/" + name, Path: p})
+			descs["composed/"+name] = desc
+			continue
+		}
 		if i < len(blocks) {
 			// every block appears at least once, first alone-ish then mixed
 			chosen = append(chosen, blocks[i])
